@@ -122,7 +122,7 @@ ROUND8 = {
  "C10": FLOWS8.strip(),
  "C11": "Round 8: the sender stalls for two hours of virtual time at a cut (direct and end to end), with read deadlines modelled on the virtual clock.",
  "C12": "Senders that pre-fill rport with a value." + FLOWS8,
- "C13": "Round 8: a listens entry with backend-local-address; a first Route entry whose DNS-only host name moves between the listener, another host and nothing (27 histories x 3 gaps, differential against a proxy started in that state).",
+ "C13": "Round 8: a listens entry with backend-local-address; a first Route entry whose DNS-only host name moves between the listener, another host and nothing (27 histories, requests every 5 / 12 / 25 s, judged more than a minute after a change; differential against a proxy started in that state).",
  "C14": "Round 8: sip / sips schemes written with capitals.",
  "C15": "The answer to a BYE that cannot be delivered (TCP caller gone) still dissolves the pin." + FLOWS8,
  "C16": "Round 8: upper-case compact names in the quick tier; environment events between flow steps (the concurrent pass is left to C04 / C15, same oracle).",
